@@ -222,7 +222,10 @@ func (w *World) RunSyncT() ([]TState, string, string) {
 	case <-done:
 	case <-time.After(watchdog):
 		cancel()
-		<-done
+		select {
+		case <-done:
+		case <-time.After(watchdog):
+		}
 		ret = "hang"
 	}
 	w.PG.SetFault(nil)
